@@ -279,6 +279,17 @@ def q2dedup(ctx):
                     arm_x = arm_of(hp, arms, otherwise, x.bb)
                     out.append(Inst("Q2DEDUP", "release-in:%s" % arm_x, arm_x == "Pubrel", x.site(), "Session.%s is released in arm %s" % (sorted(x.detail["fields"] & guard_fields), arm_x),
                                     "only an inbound PUBREL releases an inbound QoS 2 identifier"))
+            # the identifier is recorded and the message handed over within the same step of the context task: no
+            # suspension point (`.await`) lies before either of them, so no write failure / dropped run() future can
+            # separate "yielded" from "remembered"
+            yields = [y for y in hp.reach if hp.term(y)["k"] == "yield"]
+            for what, x in [("record", a_) for a_ in adds] + [("deliver", e)]:
+                xb = x.inner_bb if not x.via else x.bb
+                late = [y for y in yields if xb in hp.reachable_from(y)]
+                out.append(Inst("Q2DEDUP", "%s-before-suspension" % what, not late, x.site(),
+                                "%s of the QoS 2 identifier / message %s" % (what, "happens before any suspension point of the handler" if not late else
+                                                                             "can follow the suspension point(s) at %s" % sorted({hp.site(y) for y in late})),
+                                "delivery and bookkeeping are one atomic step: a failed or abandoned acknowledgement write must not leave a delivered message unrecorded (or a recorded one undelivered)"))
             # recognition of a re-delivery must not depend on the DUP flag
             dup_dep = []
             for x in [e] + adds:
